@@ -95,6 +95,14 @@ fn predicate_case(sink: &mut Sink, model: &mut Model, doc: &Value, class: &str) 
                 serde_json::from_value::<in_toto::models::PredicateWrapper>(doc.clone()).is_ok() as u32,
             ];
             let _ = n;
+            {
+                let d2 = doc.clone();
+                let judged = guarded(move || PredicateWrapper::judge_from_value(&d2)).ok().and_then(|x| x.ok());
+                let d3 = doc.clone();
+                let tried = guarded(move || PredicateWrapper::try_from_value(d3)).ok().and_then(|x| x.ok());
+                sink.oracle(judged == Some(ver), "judge_from_value names another predicate version than the one the document is read as", &replay);
+                sink.oracle(tried.as_ref() == Some(&p), "try_from_value reads a predicate differently than Deserialize does", &replay);
+            }
             // the crate's own interface gives the same canonical form, and converts back to the same wrapper
             {
                 let p2 = p.clone();
@@ -169,6 +177,9 @@ fn statement_case(sink: &mut Sink, model: &mut Model, doc: &Value, declared_vs_a
         Ok(Err(_)) => {
             sink.stat(&format!("{}/rejected", class));
             sink.op(&op, &candidates, false);
+            let d2 = doc.clone();
+            let judged = guarded(move || StatementWrapper::judge_from_value(&d2)).ok().and_then(|x| x.ok());
+            sink.oracle(judged.is_none(), "judge_from_value names a version for a statement that no reader accepts", &replay);
         }
         Ok(Ok(s)) => {
             let name = match &s {
@@ -212,6 +223,17 @@ fn statement_case(sink: &mut Sink, model: &mut Model, doc: &Value, declared_vs_a
                         sink.oracle(canon(&s).as_deref() == Some(&bytes[..]), "to_bytes of a statement is not the canonical form of its serialisation", &replay);
                     }
                 },
+            }
+            // the crate's two entry points for "which format is this" agree: `judge_from_value` names the
+            // version that `try_from_value` (and `Deserialize`) read the document as
+            {
+                let d2 = doc.clone();
+                let judged = guarded(move || StatementWrapper::judge_from_value(&d2)).ok().and_then(|x| x.ok());
+                let d3 = doc.clone();
+                let tried = guarded(move || StatementWrapper::try_from_value(d3)).ok().and_then(|x| x.ok());
+                let want = if name == "StateV01" { StatementVer::V0_1 } else { StatementVer::Naive };
+                sink.oracle(judged == Some(want), "judge_from_value names another statement version than the one the document is read as", &replay);
+                sink.oracle(tried.as_ref() == Some(&s), "try_from_value reads a statement differently than Deserialize does", &replay);
             }
             // the trait object knows its version, and converts back to the same wrapper
             let Ok(again) = serde_json::from_value::<StatementWrapper>(doc.clone()) else { return };
